@@ -297,6 +297,7 @@ pub fn meta(args: &Args) -> Value {
         "floor": {"quick": 20, "thorough": 1000},
         "case_timeout_s": 40,
         "hang_is_violation": false,
+        "crash_is_violation": false,
         "budget": args.cases(600, 20000),
     })
 }
